@@ -1,4 +1,4 @@
-import BluetoeModel.NotifQueue.SpecChain
+import BluetoeModel.NotifQueue.Progress
 /-!
   # C12 — Outgoing notification queue is a fair priority queue
   # C11 — Indications are confirmed one at a time and never lost
@@ -234,9 +234,8 @@ theorem notifications_continue (s : Spec) (hw : WFs s.levels) (i : Nat)
 /-- **C11** "Every indication request accepted by the queue is eventually transmitted once
     confirmations keep arriving", one round: once the confirmation has arrived a pending
     indication cannot be held back — the dequeue returns a request (which `dequeue_exactly_once…`
-    removes from the pending set, all others stay pending).  [partial: the counting argument
-    "hence within #pending rounds of conf;deq without new requests the indication is sent" is not
-    formalised; the harness checks it on every session's drain phase.] -/
+    removes from the pending set, all others stay pending).  The counting argument over whole
+    histories is `indication_bounded_response` below. -/
 theorem indication_progress_partial (s : Spec) (hw : WFs s.levels) (i : Nat)
     (hp : s.pending i .indication = true) :
     ((s.step .conf).1.step .deq).2 ≠ .entry none := by
@@ -256,5 +255,246 @@ theorem bad_length_confirmation_rejected (q : Queue) (op b : UInt8) (rest : List
 /-- … while the one-byte PDU confirms and is not answered -/
 theorem good_confirmation_confirms (q : Queue) (op : UInt8) :
     handleValueConfirmation q [op] = ({ q with outstanding := none }, []) := rfl
+
+/-! ## Bounded response: C11 "eventually transmitted", C12 "dequeued within one round"
+
+  `waitLv ss g` (Progress.lean) = number of requests pending on the priority levels above the one of
+  characteristic `g` + scan distance of `g` from the round-robin cursor of its level + 1.
+  `calm g k s ops`: in the history `ops` (started in `s`) nothing is queued on a priority level above
+  `g`'s, the queue is not cleared, and no dequeue *overtakes* `(g, k)`, i.e. returns another request
+  of `g`'s level at a scan distance ≥ that of `g` (which moves the cursor past `g`).
+  `progressDeqs k s ops`: the dequeues of `ops` executed while a request of kind `k` may be sent (all
+  of them for a notification, those without an outstanding confirmation for an indication). -/
+
+theorem Spec.run_append (s : Spec) (a b : List Op) :
+    (s.run (a ++ b)).1 = ((s.run a).1.run b).1 ∧ (s.run (a ++ b)).2 = (s.run a).2 ++ ((s.run a).1.run b).2 := by
+  induction a generalizing s with
+  | nil => exact ⟨rfl, rfl⟩
+  | cons op a ih =>
+    obtain ⟨h1, h2⟩ := ih (s.step op).1
+    simp only [List.cons_append, Spec.run] at h1 h2 ⊢
+    exact ⟨h1, by rw [h2]⟩
+
+/-- **C11/C12, never lost**: "a pending request stays pending until dequeued" — over every history
+    without `clear` (= disconnect) a pending request is still pending at the end or was returned by
+    one of the dequeues; it is never silently dropped. -/
+theorem pending_until_dequeued (s : Spec) (hw : WFs s.levels) (g : Nat) (k : Kind) (ops : List Op)
+    (hp : s.pending g k = true) (hnc : ∀ op ∈ ops, op ≠ .clear) :
+    (s.run ops).1.pending g k = true ∨ Out.entry (some (k, g)) ∈ (s.run ops).2 :=
+  pending_until_dequeued_aux g k ops s hw hp hnc
+
+/-- the same for every partition, every reachable state (history `pre`) and in terms of the outputs
+    of the implementation model: a request that is pending after `pre` is returned by a dequeue of
+    `ops` or is still pending after `pre ++ ops` -/
+theorem pending_until_dequeued_reachable (sizes : List Nat) (hpos : ∀ n ∈ sizes, 0 < n) (pre ops : List Op)
+    (g : Nat) (k : Kind) (hp : ((Spec.init sizes).run pre).1.pending g k = true) (hnc : ∀ op ∈ ops, op ≠ .clear) :
+    ((Spec.init sizes).run (pre ++ ops)).1.pending g k = true ∨
+      Out.entry (some (k, g)) ∈ ((Queue.init sizes).run (pre ++ ops)).2 := by
+  rw [queue_refines_set sizes hpos, (Spec.run_append _ pre ops).1, (Spec.run_append _ pre ops).2]
+  rcases pending_until_dequeued _ (reachable_wf sizes hpos pre) g k ops hp hnc with h | h
+  · exact Or.inl h
+  · exact Or.inr (List.mem_append_right _ h)
+
+example : ((Spec.init [2]).run [.queue .indication 1]).1.pending 1 .indication = true := by decide
+
+/-- **bounded response** (both kinds, every partition, every history): a pending request `(g, k)` is
+    returned by a dequeue before the `waitLv`-th dequeue that may send a request of its kind has
+    completed, in every calm history. -/
+theorem bounded_response (s : Spec) (hw : WFs s.levels) (g : Nat) (k : Kind) (ops : List Op)
+    (hp : s.pending g k = true) (hc : calm g k s ops) (hn : waitLv s.levels g ≤ progressDeqs k s ops) :
+    Out.entry (some (k, g)) ∈ (s.run ops).2 :=
+  bounded_response_aux g k ops s hw hp hc hn
+
+/-- the number of dequeues is bounded by the partition alone: twice the number of characteristics of
+    the higher priority levels (each may have a notification and an indication pending) plus the
+    number of characteristics of the own level -/
+theorem response_bound (s : Spec) (hw : WFs s.levels) (g : Nat) : waitLv s.levels g ≤ boundLv s.levels g :=
+  wait_le_bound hw g
+
+/-- **C11** "Every indication request accepted by the queue is eventually transmitted once
+    confirmations keep arriving": in every reachable state of every partition, a pending indication
+    of characteristic `g` is dequeued by the implementation within `waitLv ≤ boundLv` dequeues that
+    are executed with no confirmation outstanding, provided the history is calm. -/
+theorem indication_bounded_response (sizes : List Nat) (hpos : ∀ n ∈ sizes, 0 < n) (pre ops : List Op) (g : Nat)
+    (hp : ((Spec.init sizes).run pre).1.pending g .indication = true)
+    (hc : calm g .indication ((Spec.init sizes).run pre).1 ops)
+    (hn : boundLv ((Spec.init sizes).run pre).1.levels g ≤ progressDeqs .indication ((Spec.init sizes).run pre).1 ops) :
+    Out.entry (some (.indication, g)) ∈ ((Queue.init sizes).run (pre ++ ops)).2 := by
+  rw [queue_refines_set sizes hpos, (Spec.run_append _ pre ops).2]
+  have hw := reachable_wf sizes hpos pre
+  exact List.mem_append_right _ (bounded_response _ hw g .indication ops hp hc (Nat.le_trans (response_bound _ hw g) hn))
+
+/-- **C12** "within one priority every pending request is dequeued within one round", for a
+    notification: same statement, every dequeue counts. -/
+theorem notification_bounded_response (sizes : List Nat) (hpos : ∀ n ∈ sizes, 0 < n) (pre ops : List Op) (g : Nat)
+    (hp : ((Spec.init sizes).run pre).1.pending g .notification = true)
+    (hc : calm g .notification ((Spec.init sizes).run pre).1 ops)
+    (hn : boundLv ((Spec.init sizes).run pre).1.levels g ≤ progressDeqs .notification ((Spec.init sizes).run pre).1 ops) :
+    Out.entry (some (.notification, g)) ∈ ((Queue.init sizes).run (pre ++ ops)).2 := by
+  rw [queue_refines_set sizes hpos, (Spec.run_append _ pre ops).2]
+  have hw := reachable_wf sizes hpos pre
+  exact List.mem_append_right _ (bounded_response _ hw g .notification ops hp hc (Nat.le_trans (response_bound _ hw g) hn))
+
+/-- non-vacuity and tightness on `[1, 2]`: indication of characteristic 2 (low level, scan distance 1)
+    behind a notification and an indication of characteristic 0 and an indication of characteristic 1:
+    `boundLv = 2·1 + 2 = 4`, the history is calm, and exactly the 4th confirmed dequeue returns it -/
+example :
+    let s := ((Spec.init [1, 2]).run [.queue .indication 2, .queue .indication 1, .queue .indication 0, .queue .notification 0]).1
+    let ops : List Op := [.deq, .conf, .deq, .deq, .conf, .deq]
+    s.pending 2 .indication = true ∧ waitLv s.levels 2 = 4 ∧ boundLv s.levels 2 = 4 ∧
+    progressDeqs .indication s ops = 4 ∧
+    (s.run ops).2 = [.entry (some (.indication, 0)), .unit, .entry (some (.notification, 0)),
+      .entry (some (.indication, 1)), .unit, .entry (some (.indication, 2))] := by
+  decide
+
+example : calm 2 .indication
+    ((Spec.init [1, 2]).run [.queue .indication 2, .queue .indication 1, .queue .indication 0, .queue .notification 0]).1
+    [.deq, .conf, .deq, .deq, .conf, .deq] :=
+  calm_of_calmB _ _ _ _ (by decide)
+
+/-- **which dequeues are excluded by `calm`, notification**: a dequeue that overtakes a pending
+    *notification* of `g` is exactly the known finding `C12:notification-waits-behind-own-indication`:
+    it returns the indication of the same characteristic `g`, which may be sent. -/
+theorem overtake_of_notification (s : Spec) (hw : WFs s.levels) (g : Nat) (k' : Kind) (i : Nat)
+    (hp : s.pending g .notification = true) (hd : (s.step .deq).2 = .entry (some (k', i)))
+    (hne : ¬ (k' = .notification ∧ i = g)) (hov : overtakesLv s.levels g i = true) :
+    k' = .indication ∧ i = g ∧ s.outstanding = none := by
+  rcases hq : sdeqLv s.levels 0 s.outstanding with ⟨ss', o, r⟩
+  have hs : (s.step .deq).2 = Out.entry r := by simp only [Spec.step, hq]
+  have hr : r = some (k', i) := by rw [hs] at hd; exact Out.entry.inj hd
+  rcases sdeqLv_wait hw .notification 0 s.outstanding g ss' o r hp hq with hdone | ⟨_, _, hhit⟩
+  · rw [hr] at hdone
+    simp only [Option.some.injEq, Prod.mk.injEq] at hdone
+    exact absurd ⟨hdone.1, by omega⟩ hne
+  · obtain ⟨i0, hx, _, hB⟩ := hhit k' i hr
+    have e : i = i0 := by omega
+    subst e
+    obtain ⟨a, _, c, d⟩ := hB hov rfl
+    exact ⟨c, a, d⟩
+
+/-- **which dequeues are excluded by `calm`, indication**: a dequeue can overtake a pending
+    *indication* only while a confirmation is outstanding, and then returns a notification of the
+    same priority level (the cursor skips the indication that may not be sent yet). -/
+theorem overtake_of_indication (s : Spec) (hw : WFs s.levels) (g : Nat) (k' : Kind) (i : Nat)
+    (hp : s.pending g .indication = true) (hd : (s.step .deq).2 = .entry (some (k', i)))
+    (hne : ¬ (k' = .indication ∧ i = g)) (hov : overtakesLv s.levels g i = true) :
+    s.outstanding ≠ none ∧ k' = .notification := by
+  rcases hq : sdeqLv s.levels 0 s.outstanding with ⟨ss', o, r⟩
+  have hs : (s.step .deq).2 = Out.entry r := by simp only [Spec.step, hq]
+  have hr : r = some (k', i) := by rw [hs] at hd; exact Out.entry.inj hd
+  have hel := (dequeue_exactly_once_in_priority_order s hw k' i hd).2.1
+  rcases sdeqLv_wait hw .indication 0 s.outstanding g ss' o r hp hq with hdone | ⟨_, _, hhit⟩
+  · rw [hr] at hdone
+    simp only [Option.some.injEq, Prod.mk.injEq] at hdone
+    exact absurd ⟨hdone.1, by omega⟩ hne
+  · obtain ⟨i0, hx, _, hB⟩ := hhit k' i hr
+    have e : i = i0 := by omega
+    subst e
+    have hout : s.outstanding ≠ none := by
+      intro hnone
+      have := (hB hov (by simp [eligible, hnone])).2.1
+      cases this
+    refine ⟨hout, ?_⟩
+    cases k' with
+    | notification => rfl
+    | indication =>
+      exfalso
+      simp only [eligible] at hel
+      exact hout (Option.isNone_iff_eq_none.mp hel)
+
+/-- consequently: in a history in which every dequeue is executed with no confirmation outstanding
+    (the link layer asks for the next indication only after the confirmation), nothing can overtake
+    an indication -/
+theorem confirmed_dequeue_never_overtakes (s : Spec) (hw : WFs s.levels) (g : Nat) (k' : Kind) (i : Nat)
+    (hp : s.pending g .indication = true) (hout : s.outstanding = none)
+    (hd : (s.step .deq).2 = .entry (some (k', i))) (hne : ¬ (k' = .indication ∧ i = g)) :
+    overtakesLv s.levels g i = false := by
+  cases h : overtakesLv s.levels g i with
+  | false => rfl
+  | true => exact absurd hout (overtake_of_indication s hw g k' i hp hd hne h).1
+
+/-- the full-strength reading of C11's "eventually": some bound on the number of confirmed dequeues
+    works for *every* history that does not clear and does not queue on a higher priority level -/
+def indication_eventually_full : Prop :=
+  ∀ (s : Spec) (g : Nat), WFs s.levels → s.pending g .indication = true →
+    ∃ B, ∀ ops : List Op, (∀ op ∈ ops, op ≠ .clear) →
+      (∀ k i, Op.queue k i ∈ ops → levelOf s.levels g ≤ levelOf s.levels i) →
+      B ≤ progressDeqs .indication s ops → Out.entry (some (.indication, g)) ∈ (s.run ops).2
+
+/-- one round of the starving history on `[3]` (indications pending for characteristics 0 and 1,
+    cursor at 0): `deq → i0`; while its confirmation is outstanding a notification of characteristic 2
+    is requested and dequeued — the scan skips the indication of 1, the cursor wraps to 0; then the
+    confirmation arrives and the indication of 0 is requested again -/
+def starveRound : List Op := [.deq, .queue .notification 2, .deq, .conf, .queue .indication 0]
+
+def starveState : Spec := ((Spec.init [3]).run [.queue .indication 0, .queue .indication 1]).1
+
+def starveHist : Nat → List Op
+  | 0 => []
+  | n + 1 => starveRound ++ starveHist n
+
+theorem starve_round : (starveState.run starveRound).1 = starveState ∧
+    (starveState.run starveRound).2 = [.entry (some (.indication, 0)), .bool true, .entry (some (.notification, 2)), .unit, .bool true] ∧
+    progressDeqs .indication starveState starveRound = 1 := by decide
+
+theorem progressDeqs_append (k : Kind) (s : Spec) (a b : List Op) :
+    progressDeqs k s (a ++ b) = progressDeqs k s a + progressDeqs k (s.run a).1 b := by
+  induction a generalizing s with
+  | nil => simp [progressDeqs, Spec.run]
+  | cons op a ih =>
+    simp only [List.cons_append, progressDeqs, ih, Spec.run]
+    omega
+
+theorem starve_hist (n : Nat) : (starveState.run (starveHist n)).1 = starveState ∧
+    Out.entry (some (.indication, 1)) ∉ (starveState.run (starveHist n)).2 ∧
+    progressDeqs .indication starveState (starveHist n) = n ∧
+    (∀ op ∈ starveHist n, op ≠ .clear) ∧
+    (∀ k i, Op.queue k i ∈ starveHist n → i < 3) := by
+  induction n with
+  | zero => exact ⟨rfl, by simp [starveHist, Spec.run], rfl, by simp [starveHist], by simp [starveHist]⟩
+  | succ n ih =>
+    obtain ⟨h1, h2, h3, h4, h5⟩ := ih
+    obtain ⟨r1, r2, r3⟩ := starve_round
+    simp only [starveHist]
+    refine ⟨?_, ?_, ?_, ?_, ?_⟩
+    · rw [(Spec.run_append _ _ _).1, r1, h1]
+    · rw [(Spec.run_append _ _ _).2, r1, r2]
+      intro hm
+      rcases List.mem_append.mp hm with hm | hm
+      · revert hm; decide
+      · exact h2 hm
+    · rw [progressDeqs_append, r1, r3, h3]; omega
+    · intro op hm
+      rcases List.mem_append.mp hm with hm | hm
+      · revert hm; simp only [starveRound]; intro hm e; subst e; revert hm; decide
+      · exact h4 op hm
+    · intro k i hm
+      rcases List.mem_append.mp hm with hm | hm
+      · simp only [starveRound, List.mem_cons, Op.queue.injEq, List.not_mem_nil, or_false, reduceCtorEq, false_or] at hm
+        rcases hm with ⟨_, e⟩ | ⟨_, e⟩ <;> omega
+      · exact h5 k i hm
+
+/-- **C11 "eventually" is false of the code without the `calm` hypothesis** — new finding
+    `C11:indication-overtaken-while-unconfirmed`: on one priority level of three characteristics the
+    indication of characteristic 1 is never sent although every indication is confirmed, the history
+    never clears and never touches characteristic 1: each round dequeues the (re-requested)
+    indication of characteristic 0, and before its confirmation arrives a notification of
+    characteristic 2 is dequeued, which moves the cursor over characteristic 1. -/
+theorem indication_starvation_witness : ¬ indication_eventually_full := by
+  intro h
+  obtain ⟨B, hB⟩ := h starveState 1 (reachable_wf [3] (by decide) _) (by decide)
+  obtain ⟨_, h2, h3, h4, h5⟩ := starve_hist B
+  refine h2 (hB (starveHist B) h4 ?_ (by omega))
+  intro k i hm
+  have hi := h5 k i hm
+  have e : levelOf starveState.levels 1 = 0 := by decide
+  rw [e]; exact Nat.zero_le _
+
+/-- … and the excluded step is exactly an overtaking dequeue: the second dequeue of the round,
+    executed while the confirmation for characteristic 0 is outstanding, returns notification 2 -/
+example :
+    let s := (starveState.run [.deq, .queue .notification 2]).1
+    s.outstanding = some 0 ∧ (s.step .deq).2 = .entry (some (.notification, 2)) ∧ overtakesLv s.levels 1 2 = true := by
+  decide
 
 end BluetoeModel.NotifQueue
